@@ -170,6 +170,28 @@ func (w *opsWorld) realOp(op string) string {
 		body, _ := json.Marshal(em)
 		code, _ := w.httpDo("POST", "/api/v1/equipment-migrate", body)
 		return fmt.Sprint(code)
+	case "recent":
+		k := key(parts[1]).Pub
+		code, rr := w.recentReports(k)
+		if code != 200 {
+			return fmt.Sprint(code)
+		}
+		n := 0
+		for _, r := range rr.Reports {
+			if r.PowerOutput != 0 {
+				n++
+			}
+		}
+		return fmt.Sprintf("200:%d", n)
+	case "servers":
+		code, body := w.httpDo("GET", "/api/v1/authorized-servers", nil)
+		var r server.AuthorizedServersResponse
+		json.Unmarshal(body, &r)
+		var ss []string
+		for _, s := range r.AuthorizedServers {
+			ss = append(ss, fmt.Sprintf("%x:%v", s.PublicKey[:3], s.Banned))
+		}
+		return fmt.Sprint(code, ss)
 	case "equipment":
 		code, eq := w.equipment()
 		var ids []int
